@@ -1334,6 +1334,10 @@ class Interp:
     def scalar_binop(self, st, name, a, b):
         A = self.A
         a, b = self.use(st, a), self.use(st, b)
+        if isinstance(a, Choice):
+            return self.ite_any(a.cond, self.scalar_binop(st, name, a.a, b), self.scalar_binop(st, name, a.b, b))
+        if isinstance(b, Choice):
+            return self.ite_any(b.cond, self.scalar_binop(st, name, a, b.a), self.scalar_binop(st, name, a, b.b))
         if self.concrete:
             return self.lib.concrete_binop(name, a, b)
         if name == "Add":
